@@ -1,10 +1,158 @@
-import ALV.Spec.C11
+/-
+  C11 — property theorems.  Only statements of the property, non-vacuity examples and the
+  audit live here; helper lemmas are in `ALV.Lemmas.C11*`.
+
+  Vocabulary: `parcorCoded d num` = `list(parcor(ZFilter(num, [d])))` as coded (yields, raised);
+  `parcorFixed` = the same loop with the proposed repair of D3; `parcorSpec` = the specification
+  (monic normalisation, textbook step-down); `stepUp ks` = Levinson order updates from the
+  reflection coefficients `ks` (first first).
+-/
+import ALV.Lemmas.C11Coded
 import ALV.Common.Audit
+
+set_option linter.unusedSectionVars false
 
 namespace ALV.Props.C11
 open ALV.C11
+variable {K : Type} [Field K] [DecidableEq K]
 
-theorem stepUp_nil : stepUp ([] : List Int) = [1] := rfl
+/-! ### 1. step-down inverts step-up, both directions, any order, any field -/
+
+/-- **C11.1a** `parcor` (as coded, denominator 1) of the filter stepped up from `k_1 … k_n`
+yields exactly `k_n, …, k_1` and does not raise — any order, any field, provided no `k_m² = 1`
+and `k_n ≠ 0` (the order is the highest non-zero coefficient). -/
+theorem stepdown_stepup (ks : List K) (h1 : ∀ k ∈ ks, k * k ≠ 1) (hlast : ks.getLastD 1 ≠ 0) :
+    parcorCoded 1 (stepUp ks) = (ks.reverse, false) := by
+  obtain ⟨t, ht⟩ := stepUp_head ks
+  have hs : stripZeros (stepUp ks) = 1 :: t := by
+    rw [stripZeros_of_last_ne _ (stepUp_last_ne ks hlast), ht]
+  rw [parcorCoded_eq_spec 1 _ t one_ne_zero hs]
+  unfold parcorSpec
+  rw [hs, monic_cons 1 t one_ne_zero]
+  have : (1 : K) :: t.map (fun x => x / 1) = stepUp ks := by rw [ht]; simp
+  rw [this]
+  show sdLoop ((stepUp ks).length - 1) (stepUp ks) = _
+  rw [stepUp_length, Nat.add_sub_cancel]
+  exact sdLoop_stepUp ks h1
+
+/-- the same for the specification -/
+theorem stepdown_stepup_spec (ks : List K) (h1 : ∀ k ∈ ks, k * k ≠ 1) (hlast : ks.getLastD 1 ≠ 0) :
+    parcorSpec (stepUp ks) = (ks.reverse, false) := by
+  obtain ⟨t, ht⟩ := stepUp_head ks
+  have hs : stripZeros (stepUp ks) = 1 :: t := by
+    rw [stripZeros_of_last_ne _ (stepUp_last_ne ks hlast), ht]
+  rw [← parcorCoded_eq_spec 1 _ t one_ne_zero hs]
+  exact stepdown_stepup ks h1 hlast
+
+/-- **C11.1b** rebuilding: whenever `parcor` (as coded) runs to its end on a filter whose leading
+coefficient equals the constant denominator `d`, the step-up of the yielded coefficients (read
+backwards) is the monic normalisation of the filter. -/
+theorem stepup_stepdown (d : K) (num t ks : List K) (hd : d ≠ 0) (hs : stripZeros num = d :: t)
+    (h : parcorCoded d num = (ks, false)) : stepUp ks.reverse = monic (stripZeros num) := by
+  rw [parcorCoded_eq_spec d num t hd hs] at h
+  unfold parcorSpec at h
+  rw [hs, monic_cons d t hd] at h ⊢
+  simp only [List.length_cons, List.length_map, Nat.add_sub_cancel] at h
+  exact stepUp_sdLoop _ _ ks (by simp) h
+
+/-- the same for the specification: any non-zero leading coefficient -/
+theorem stepup_stepdown_spec (f t ks : List K) (g : K) (hg : g ≠ 0) (hs : stripZeros f = g :: t)
+    (h : parcorSpec f = (ks, false)) : stepUp ks.reverse = monic (stripZeros f) := by
+  unfold parcorSpec at h
+  rw [hs, monic_cons g t hg] at h ⊢
+  simp only [List.length_cons, List.length_map, Nat.add_sub_cancel] at h
+  exact stepUp_sdLoop _ _ ks (by simp) h
+
+/-! ### 2. the code against the specification -/
+
+/-- **C11.2a** as coded = specification whenever the numerator's leading coefficient equals `den[0]`
+(in particular: monic numerator over denominator 1, the only case the repo's tests exercise). -/
+theorem coded_eq_spec (d : K) (num t : List K) (hd : d ≠ 0) (hs : stripZeros num = d :: t) :
+    parcorCoded d num = parcorSpec num := parcorCoded_eq_spec d num t hd hs
+
+/-- **C11.2b** the repaired loop = specification for every non-zero leading coefficient. -/
+theorem fixed_eq_spec (num t : List K) (g : K) (hg : g ≠ 0) (hs : stripZeros num = g :: t) :
+    parcorFixed num = parcorSpec num := parcorFixed_eq_spec num g t hg hs
+
+/-! ### 3. ParCorError -/
+
+/-- **C11.3** `parcor` as coded raises `ParCorError` iff one of the yielded coefficients has
+`k² = 1` — for every input, whatever its leading coefficient and constant denominator. -/
+theorem parcor_error_iff (d : K) (num : List K) :
+    (parcorCoded d num).2 = true ↔ ∃ k ∈ (parcorCoded d num).1, k * k = 1 := by
+  unfold parcorCoded
+  exact ploop_raised_iff _ _ _ _
+
+theorem parcor_error_iff_spec (f : List K) :
+    (parcorSpec f).2 = true ↔ ∃ k ∈ (parcorSpec f).1, k * k = 1 := by
+  unfold parcorSpec
+  exact sdLoop_raised_iff _ _
+
+/-- without `ParCorError`, as many coefficients as the order are yielded -/
+theorem parcor_count_spec (f : List K) (h : (parcorSpec f).2 = false) :
+    (parcorSpec f).1.length = (stripZeros f).length - 1 := by
+  unfold parcorSpec at h ⊢
+  rw [sdLoop_length _ _ h]; simp [monic]
+
+/-! ### 4. a non-zero gain changes nothing ("whatever non-zero leading coefficient") -/
+
+theorem parcor_scale (c : K) (hc : c ≠ 0) (f : List K) : parcorSpec (scale c f) = parcorSpec f :=
+  parcorSpec_scale c hc f
+
+section Order
+variable {L : Type} [Field L] [LinearOrder L] [IsStrictOrderedRing L]
+
+/-- **C11.4a** the stability verdict of the specification ignores any non-zero gain. -/
+theorem stable_scale (c : L) (hc : c ≠ 0) (f : List L) :
+    parcorStableSpec (scale c f) = parcorStableSpec f := by
+  unfold parcorStableSpec
+  rw [parcorSpec_scale c hc]
+
+/-- **C11.4b** `parcor_stable` as coded = specification on denominators with leading coefficient 1. -/
+theorem stableCoded_eq_spec (den t : List L) (hs : stripZeros den = 1 :: t) :
+    parcorStableCoded den = parcorStableSpec den := by
+  rw [parcorStableCoded_eq, parcorCoded_eq_spec 1 den t one_ne_zero hs]
+  unfold parcorStableSpec
+  congr 2
+  funext k
+  exact absLt1_iff k
+
+/-- **C11.4c** the repaired `parcor_stable` = specification for every non-zero leading coefficient,
+hence it ignores the gain. -/
+theorem stableFixed_eq_spec (den t : List L) (g : L) (hg : g ≠ 0) (hs : stripZeros den = g :: t) :
+    parcorStableFixed den = parcorStableSpec den := by
+  rw [parcorStableFixed_eq, parcorFixed_eq_spec den g t hg hs]
+  unfold parcorStableSpec
+  congr 2
+  funext k
+  exact absLt1_iff k
+
+theorem stableFixed_scale (c g : L) (hc : c ≠ 0) (hg : g ≠ 0) (den t : List L)
+    (hs : stripZeros den = g :: t) :
+    parcorStableFixed (scale c den) = parcorStableFixed den := by
+  have hs' : stripZeros (scale c den) = (c * g) :: scale c t := by
+    rw [stripZeros_scale c hc, hs]; rfl
+  rw [stableFixed_eq_spec _ _ (c * g) (mul_ne_zero hc hg) hs', stableFixed_eq_spec _ _ g hg hs,
+    stable_scale c hc]
+
+end Order
+
+/-- **C11.4d (defect D3)** the gain clause is FALSE for the code as it stands: `1/(1 - z⁻¹/2)` is
+stable, `1/(2 - z⁻¹)` (the same pole 1/2) is declared unstable. -/
+theorem stable_scale_fails_as_coded :
+    ¬ ∀ (c : Rat) (f : List Rat), c ≠ 0 → parcorStableCoded (scale c f) = parcorStableCoded f := by
+  intro h
+  have := h 2 [1, -1/2] (by decide)
+  have h1 : parcorStableCoded (scale (2 : Rat) [1, -1/2]) = false := by decide +kernel
+  have h2 : parcorStableCoded ([1, -1/2] : List Rat) = true := by decide +kernel
+  rw [h1, h2] at this
+  exact Bool.false_ne_true this
+
+/-! ### non-vacuity -/
+example : parcorCoded (1 : Rat) (stepUp [1/2, -1/3, 1/5]) = ([1/5, -1/3, 1/2], false) := by decide +kernel
+example : parcorSpec ([2, 1, 1/2, 1/5] : List Rat) = ([1/10, 20/99, 95/238], false) := by decide +kernel
+example : parcorCoded (1 : Rat) [2, 1, 1/2, 1/5] = ([1/5, 5/16, 5/7], false) := by decide +kernel
+example : parcorCoded (1 : Rat) [3, 3/2, 1/2] = ([1/2, 1], true) := by decide +kernel
 
 end ALV.Props.C11
 
